@@ -5,11 +5,11 @@ P="$1"; shift
 cd /repo || exit 2
 if ! git diff --quiet; then echo "/repo has uncommitted changes; refusing"; exit 2; fi
 if ! git apply --check "$P" 2>/dev/null; then
-  if git apply --3way "$P" 2>/dev/null; then echo "(applied with 3-way merge)"; else echo "PATCH DOES NOT APPLY: $P"; git checkout -- . ; exit 3; fi
+  if git apply --3way "$P" 2>/dev/null && ! git diff --name-only --diff-filter=U | grep -q .; then echo "(applied with 3-way merge)"; git reset -q; else echo "PATCH DOES NOT APPLY: $P"; git reset -q --hard HEAD; exit 3; fi
 else
   git apply "$P"
 fi
-trap 'cd /repo && git checkout -- . && git reset -q' EXIT
+trap 'cd /repo && git reset -q --hard HEAD' EXIT
 cd /verif
 for c in "$@"; do
   out=$(./check "$c" "${TIER:-quick}" 2>&1); rc=$?
